@@ -7,4 +7,9 @@ mkdir -p ../bin ../out ../evidence
 go build -o ../bin/check ./cmd/check
 go test -c -tags verif -o ../out/warm.test ./checks
 rm -f ../out/warm.test
+# the race-instrumented harness (jobs queuerace of C08 and C14); without a
+# usable race detector those jobs are skipped by the driver, so a failure here
+# is not fatal
+CGO_ENABLED=1 go test -c -race -tags verif -o ../out/warm-race.test ./checks >/dev/null 2>&1 || echo "note: no race detector here (cgo unavailable?)"
+rm -f ../out/warm-race.test
 echo setup ok
